@@ -940,8 +940,9 @@ func Run(cfg *common.Config) (*common.Report, error) {
 	g.recs = append(g.recs, hashers.NewRecorder(hashers.Default()))
 	g.primes = append(g.primes, new(big.Int).Set(constants.Q))
 	for _, p := range hashers.SmallPrimes() {
-		g.recs = append(g.recs, hashers.NewRecorder(hashers.Mod{P: p, Name: "mod" + p.String()}))
-		g.primes = append(g.primes, p)
+		// the hasher hands out its stored modulus (ShareP); g.primes keeps a private copy to compare with at the end
+		g.recs = append(g.recs, hashers.NewRecorder(hashers.Mod{P: new(big.Int).Set(p), Name: "mod" + p.String(), ShareP: true}))
+		g.primes = append(g.primes, new(big.Int).Set(p))
 	}
 	if cfg.Replay != "" {
 		return replay(cfg, g)
@@ -954,6 +955,11 @@ func Run(cfg *common.Config) (*common.Report, error) {
 	g.stringStream()
 	g.typedStream()
 	g.entryAgrees()
+	for i, r := range g.recs {
+		if r.Inner.Prime().Cmp(g.primes[i]) != 0 {
+			rep.Fail("c04-hasher-prime-mutated", fmt.Sprintf("the library changed the *big.Int returned by Hasher.Prime(): %s became %s", g.primes[i], r.Inner.Prime()), map[string]any{"hasher": i, "prime": g.primes[i].String()})
+		}
+	}
 	for i, in := range g.cases {
 		if i%97 == 0 {
 			rep.Sample(map[string]any{"input": in, "ok": g.obs[i].ok, "value": fmt.Sprint(g.obs[i].val)})
